@@ -342,6 +342,11 @@ func decimalOutcomes(x float64, p, s int) []decOutcome {
 			continue
 		}
 		f, _ := rr.Float64()
+		if math.IsInf(f, 0) {
+			// the rounded value has left the finite doubles: an error, never an infinity
+			outs = append(outs, decOutcome{ok: false})
+			continue
+		}
 		outs = append(outs, decOutcome{ok: true, f: f})
 	}
 	return outs
